@@ -445,7 +445,7 @@ def machine_factory(ctx, tier):
     return Machine
 
 
-SUB = MachineSub("dataset_histories", machine_factory, replay, quick=3000, thorough=30000, steps_quick=10,
+SUB = MachineSub("dataset_histories", machine_factory, replay, quick=8000, thorough=80000, steps_quick=10,
                  steps_thorough=20)
 
 
@@ -501,4 +501,4 @@ def check_sources(case, ctx):
 
 
 def subchecks():
-    return [SUB, HypSub("ranking_sources", source_cases, check_sources, 4000, 60000)]
+    return [SUB, HypSub("ranking_sources", source_cases, check_sources, 8000, 100000)]
